@@ -30,6 +30,50 @@ size:      notes/SIZE_STRESS.md -- the abstract cases stay, the concretization h
            in one with-block.  TLC treats words as numbers, so Split/the list semantics are length-independent
            by construction; counts are real (TLC splits the 1000-value layouts itself).
 
+API surface (notes/API_SURFACE.md) -- every public way to reach the list behaviour -> exercising leg.  "variant n"
+is make_list()/Block/show()/call() below; variants rotate with the concretization (Conc.idioms, per event in
+traces) in the QUICK tier too and are MIXED within one history: the values on open are read from a second list
+object made through another entry point than the one that is edited, fresh reads use yet another one, the
+handles of the multi-view legs are created through different entry points and live at the same time.
+  entry point / variant                                                   exercised by
+  paragraph.as_interpreted_dict_view(interp)[name]                        open variant 0: replay, trace, multi
+  ... (interp, auto_resolve_ambiguous_fields=False | =True)[...]          open variants 1, 2 (keyword-only argument)
+  view[(name, i)]                                                         variant 2 ((name, 0) of an ordinary field); multi
+                                                                          legs: F and G as occurrences 0 / 1 of ONE duplicated
+                                                                          field name (parse_deb822_file(...,
+                                                                          accept_files_with_duplicated_fields=True)), the plain
+                                                                          name reaching occurrence 0
+  view[name] of a duplicated field with auto_resolve...=False             out of domain: AmbiguousDeb822FieldKeyError, no list
+  view[field_token]                                                       open variant 3
+  kvpair.interpret_as(interp) / (interp, discard_comments_on_read=True)   open variants 4, 6
+  interp.interpret(kvpair)                                                open variant 5
+  interpret_as(interp, discard_comments_on_read=False),                   "keep" traces (25 % of the comma traces, all their
+  interp.interpret(kvpair, discard_comments_on_read=False | , False)      sessions and fresh reads): values carry their comment
+                                                                          lines, reference = ListView!SplitKeep (KeepExact in TLC)
+  as_interpreted_dict_view(..., discard_comments_on_read=...)             does not exist (the unexported wrapper class takes
+                                                                          and ignores such an argument: no public path)
+  paragraph.configured_view(...)                                          out of domain: str-valued view (C05), no list
+  `with obj as lst:` (a real with statement) / obj.__enter__(),           block variants 1 / 0 (Block), all legs
+  obj.__exit__(None, None, None)
+  with-block left by an exception / __exit__(exc_type, exc, tb)           "abort": every 10th replayed concretization, 12 % of
+                                                                          the trace sessions, Abort1 in the multi legs
+  the same object entered again                                           multi legs (reenter)
+  list(lst), iteration, lst.value_parts (+ convert_to_text[_without_      read variants 0-3, rotating after EVERY call; bool(lst)
+  comments]), [r.value for r in lst.iter_value_references()], bool(lst)   is compared on every read
+  append(v) / append_value(element)                                       all legs; every 3rd append goes through append_value
+                                                                          with an element taken from a scratch document's view
+  append_separator() / (space_after_separator=True|False) / (False)       sep, sep0 (comma lists; space lists: not generated)
+  append_newline() / append_comment(text)                                 nl / cmt with "note", "# given", "", "tail   \n", "#x", ...
+  remove(v) / replace(v, w)                                               all legs
+  sort(...) / sort_elements(...)                                          covered by the extra check X04 -- not duplicated here
+  iter_value_references(): .value, .value = w, .remove()                  refset/refremove/refpass, hold/heldget/heldset/
+                                                                          heldremove (multi), read variant 3
+  reformat_when_finished() / no_reformatting_when_finished()              reformat / noreformat (TLC cases, traces, multi)
+  value_formatter(f) / (f, force_reformat=True) / (f, True)               vfmt / vfmtf with the stock formatter; other formatters:
+                                                                          out of domain (formatter contract, DESIGN.md 9)
+  LIST_UPLOADERS_INTERPRETATION                                           out of domain (not named by the statement; DESIGN.md 9)
+No divergence between entry points was found on the unchanged tree.
+
 Verdict observables (DESIGN.md 5/C11): values on open = Split(layout) (TLC); the list the view shows after
 every call = reference list; leaving without change => dump() byte-identical; after edits a fresh parse of
 dump() gives the reference list for the field, everything outside the field byte-identical, no error
@@ -937,6 +981,7 @@ def run(ctx):
         "remove/replace of an absent value and append_newline after a newline: only 'the list does not change' is a verdict, the exception is a diagnostic",
         "several views at once: what a view shows depends only on the calls made on it; two writers on one field, what the other interpretation reads after a write, and empty lists are unspecified (document-level checks only); a ValueReference whose value was removed must fail (not generated in replay); a partially consumed iter_value_references() is closed before the list is edited",
         "size: words/blank runs/comment lines of boundary lengths up to 8193 (65535+ thorough), lists up to 1000 values, 99-257 comment lines between/inside values, 100 appends + 100 removes in one with-block; empty fields ('F:\\n') are not generated (the views assert content)",
+        "API surface: every public entry point of the module docstring's table is exercised on a rotating sample in both tiers; discard_comments_on_read=False only in recorded traces (reference SplitKeep); a with-block left by an exception must write nothing",
         "trusted: TLC, the concretizer (words/blanks/comments per token), projections list(view), dump(), byte comparison around the field",
     ]
     # 1. design level (independent of /repo): all layouts x edit sequences; runs beside the replay
